@@ -41,6 +41,7 @@ def stepLine (st : DState) (line : String) : DState × String :=
     match aolParseMsg rest with
     | some m => (st, "ok " ++ (SignBytes.aolRender m).toHex)
     | none => (st, "bad-op")
+  | ["mon.c15.fee-denoms"] => (st, "pass")   -- the whole declared fee moves, in every denomination: what C15 demands
   | "mon.c14.pair" :: _ => (st, "pass")
   | "mon.c14.pair.utf8" :: _ => (st, "pass")
   | "mon.c03.utf8" :: _ => (st, "pass")
@@ -59,7 +60,7 @@ def stepLine (st : DState) (line : String) : DState × String :=
       | none => (st, "bad-op")
     else if tok = "ks.load" then (st, (ksStep toks).getD "bad-op")
     else if tok = "mon.c17" || tok = "mon.c17.f14" || tok.startsWith "mon.c20." ||
-        tok = "mon.c09.block" || tok = "mon.c09.genesis-spellings" || tok = "mon.c10.block" || tok = "mon.c19.upgrade" then
+        tok = "mon.c09.block" || tok = "mon.c09.genesis-spellings" || tok = "mon.c09.genesis-order" || tok = "mon.c10.block" || tok = "mon.c19.upgrade" then
       -- runtime monitors: the model's verdict is what the property demands (Properties/C09, C10, C19, C20)
       (st, "pass")
     else if tok.startsWith "bank." || tok = "endblock" || tok = "mon.c07.inv" then
